@@ -67,11 +67,40 @@ def param_api_compiles():
     return p.returncode == 0
 
 
+ISTREAM_PROBE = """#include <fcppt/random/distribution/basic.hpp>
+#include <fcppt/random/distribution/parameters/uniform_int.hpp>
+#include <sstream>
+bool probe()
+{
+  using params = fcppt::random::distribution::parameters::uniform_int<int>;
+  fcppt::random::distribution::basic<params> d(params::min(1), params::max(3));
+  std::istringstream s("1 3");
+  return static_cast<bool>(s >> d);
+}
+"""
+
+
+def probe_compiles(name, text):
+    d = vlib.mkdir(os.path.join(vlib.BUILD, "work", "C20"))
+    src = os.path.join(d, name)
+    with open(src, "w") as f:
+        f.write(text)
+    import subprocess
+    p = subprocess.run(vlib.base_flags("none", "-O0") + ["-fsyntax-only", src], stdout=subprocess.PIPE,
+                       stderr=subprocess.STDOUT, text=True, errors="replace")
+    return p.returncode == 0
+
+
 def build(ctx=None):
     ok = param_api_compiles()
+    # operator>> of distribution::basic does not compile on the tree as found (friend declaration
+    # mismatch, fixes/C20_basic_istream_friend.diff); the << / >> round trip is driven only if it does
+    iok = ok and probe_compiles("istream_probe.cpp", ISTREAM_PROBE)
     if ctx is not None:
         ctx.extra["param_api_driven"] = ok
-    return vlib.build_harness("c20_random", ["c20_random.cpp"], libs=("core",), defs=(("C20_PARAM_API",) if ok else ()))
+        ctx.extra["istream_api_driven"] = iok
+    defs = (("C20_PARAM_API",) if ok else ()) + (("C20_ISTREAM_API",) if iok else ())
+    return vlib.build_harness("c20_random", ["c20_random.cpp"], libs=("core",), defs=defs)
 
 
 def group_of(line):
@@ -136,7 +165,7 @@ def classes_of(ctx, rec):
         ctx.count_class((f, rec["C"], len(rec["elems"]), len(rec["script"]), len(rec["wv"])))
     elif f in ("engine", "real"):
         ctx.count_class((f, rec["eng"], rec["R"], rec.get("dist")))
-    elif f == "raw":
+    elif f in ("raw", "chrono"):
         ctx.count_class((f, rec["eng"]))
     elif f == "session":
         ops = [o["op"] for o in rec["ops"]]
@@ -154,13 +183,24 @@ def function_name(rec, why):
         return "make_uniform_enum"
     if f == "container":
         return "make_uniform_indices" if all(w.startswith("indices") for w in why) else "uniform_container"
-    if f == "raw":
+    if f in ("raw", "chrono"):
         return "generator_" + rec["eng"]
     if f == "engine":
         return "variate"
     if f in ("real", "session"):
         return rec["dist"]
     return f
+
+
+def observe(ctx, rec, why, line):
+    """Disagreements outside the statement of the property: counted and sampled in the evidence
+    (coverage.observations), never a rejected event."""
+    if not why:
+        return
+    obs = ctx.extra.setdefault("observations", {})
+    key = "%s:%s" % (rec.get("dist") or rec["f"], "+".join(sorted(w[4:] for w in why)))
+    o = obs.setdefault(key, {"count": 0, "sample": line[:500]})
+    o["count"] += 1
 
 
 def judge_file(ctx, path, what, rc, out):
@@ -215,7 +255,10 @@ def judge_file(ctx, path, what, rc, out):
             if "HARNESS-PRECONDITION" in b["why"] or "unknown-record-kind" in b["why"]:
                 pre.append(chunk[b["l"] - 1][:300])
                 continue
-            why = sorted(b["why"])
+            observe(ctx, rec, [w for w in b["why"] if w.startswith("obs:")], chunk[b["l"] - 1])
+            why = sorted(w for w in b["why"] if not w.startswith("obs:"))
+            if not why:
+                continue
             fn = function_name(rec, why)
             ctx.reject("C20:%s:%s" % (fn, "+".join(why)),
                        "%s: Random.tla cannot explain %s (%s); %d of %d records of this chunk rejected; record: %s" % (
@@ -267,6 +310,9 @@ def run(ctx):
     os.unlink(tpath)
     thorough = ctx.tier == "thorough"
     ctx.exhaustive = False
+    ctx.extra.setdefault("observations", {})
+    for k, o in ctx.extra["observations"].items():
+        print("OBSERVATION (outside the statement, not a verdict): %s x%d e.g. %s" % (k, o["count"], o["sample"][:200]))
     ctx.extra["exhaustive_parts"] = (
         "scripted engine (raw values 0..15), every interval -8 <= a <= b <= 8 over short/int/long, plain and "
         "strong-typedef results, and the type-limit intervals: "
